@@ -25,7 +25,7 @@ func zzIsClosed(err error) bool {
 // call; a stream-limit error does not reconnect; after Close nothing is open
 // and every call fails without touching the configuration.
 //
-//verif:harness kind=api replay=interp unwind=64 preempt=0 bound=calls<=4(quick)/5(thorough),lazy/eager,5-faults
+//verif:harness kind=api replay=interp unwind=64 preempt=0 bound=calls<=4(quick)/6(thorough),lazy/eager,5-faults
 func ZZ_C16_ReconnectCensus() {
 	zzServer.header = http.Header{"Hysteria-Udp": []string{"false"}}
 	zzServer.status = 233
@@ -50,7 +50,7 @@ func ZZ_C16_ReconnectCensus() {
 	closed := false
 	steps := 4
 	if verifThorough() {
-		steps = 5
+		steps = 6
 	}
 	expectReconnect := lazy // the next call has to build a connection
 	for s := 0; s < steps; s++ {
